@@ -18,6 +18,7 @@ import (
 	"context"
 	"fmt"
 	"net"
+	"os"
 	"reflect"
 	"runtime"
 	"sort"
@@ -286,7 +287,8 @@ type vkLKSnap struct {
 
 var vkLKWorldFrames = []string{
 	"middleware/resolver.(*Resolver).", "middleware/resolver.(*SingleflightWrapper).", "sync/singleflight.",
-	"internal/dnsclient.", "middleware/resolver.vkLKCallerRun", "context.(*cancelCtx).propagateCancel",
+	"internal/dnsclient.", "middleware/resolver.vkLKCallerRun", "middleware/resolver.(*vkLKWorld).start", // (a goroutine that has not run yet shows only its go-statement wrapper)
+	"context.(*cancelCtx).propagateCancel",
 	"context.(*afterFuncCtx)",
 }
 
@@ -302,9 +304,14 @@ var vkLKBlockedStates = map[string]bool{
 	"sync.WaitGroup.Wait": true,
 }
 
-var vkLKStackBuf = make([]byte, 1<<20)
+var (
+	vkLKStackBuf  = make([]byte, 1<<20)
+	vkLKSnapCount int
+	vkLKDebug     = os.Getenv("VERIF_DEBUG") != ""
+)
 
 func vkLKSnapshot() vkLKSnap {
+	vkLKSnapCount++
 	n := runtime.Stack(vkLKStackBuf, true)
 	for n == len(vkLKStackBuf) {
 		vkLKStackBuf = make([]byte, 2*len(vkLKStackBuf))
@@ -797,6 +804,10 @@ func (w *vkLKWorld) exec(ev string) (late bool, err error) {
 		return true, nil
 	}
 	w.states = append(w.states, w.digest())
+	if vkLKDebug {
+		sn := vkLKSnapshot()
+		fmt.Printf("  step %d %s: t-D=%v slots=%d %s || %s\n", w.step, ev, time.Since(w.deadline).Round(100*time.Microsecond), len(w.r.maxConcurrent), w.digest(), sn.sig)
+	}
 	return false, nil
 }
 
